@@ -517,7 +517,7 @@ class POXCore (EventMixin):
       callback.__name__ = "<None>"
     if isinstance(components, str):
       components = [components]
-    elif isinstance(components, set):
+    elif isinstance(components, (set, list, tuple)):
       components = list(components)
     else:
       try:
